@@ -301,6 +301,119 @@ def misc_family():
                                                               value_info=[_vi("r", F, oshape)])
 
 
+def table_ops_family():
+    """every operator the CURRENT optimizer tables treat as layout-invariant / chain member, placed between an
+    inverse transpose pair and an inverse reshape pair (ops the static corpus does not already cover)"""
+    import os
+    import sys
+    sys.path.insert(0, os.environ.get("VERIF_REPO", "/repo"))
+    from jax2onnx.converter import ir_optimizations as opt
+    ops = sorted(set(opt.ELEMENTWISE_UNARY_OPS) | set(opt.ALLOWED_ELEMWISE) | set(opt.UNARY_DATAFLOW_OPS) | set(opt.ELEMENTWISE_BINARY_OPS))
+    for op in ops:
+        for fam, (p1, p2) in (("nchw", PERMS4["nchw"]), ("inv", PERMS3["inv"])):
+            shape = (2, 3, 4) if len(p1) == 3 else (2, 3, 4, 5)
+            tshape = tuple(shape[i] for i in p1)
+            for arity, side in ((1, None), (2, "scalar"), (2, "inputT")):
+                inputs = [_vi("in_0", F, shape)]
+                inits = []
+                nodes = [H.make_node("Transpose", ["in_0"], ["t1"], perm=list(p1), name="T1")]
+                ins = ["t1"]
+                if arity == 2 and side == "scalar":
+                    inits.append(_const("s0", np.float32(0.25)))
+                    ins.append("s0")
+                elif arity == 2:
+                    inputs.append(_vi("in_1", F, shape))
+                    nodes.append(H.make_node("Transpose", ["in_1"], ["tb"], perm=list(p1), name="TB"))
+                    ins.append("tb")
+                kw = {"to": F} if op == "Cast" else {}
+                nodes += [H.make_node(op, ins, ["c0"], name="N0", **kw),
+                          H.make_node("Transpose", ["c0"], ["t2"], perm=list(p2), name="T2"),
+                          H.make_node("Identity", ["t2"], ["y"], name="Tail")]
+                yield f"O/{op}/transpose/{fam}/arity{arity}{'/' + side if side else ''}", _model(nodes, inputs, [_vi("y", F, shape)], inits)
+        # between reshapes
+        inits = [_const("s1", np.array([4, 6], np.int64)), _const("s2", np.array([2, 3, 4], np.int64))]
+        kw = {"to": F} if op == "Cast" else {}
+        nodes = [H.make_node("Reshape", ["in_0", "s1"], ["r1"], name="R1"), H.make_node(op, ["r1"], ["c0"], name="N0", **kw),
+                 H.make_node("Reshape", ["c0", "s2"], ["r2"], name="R2"), H.make_node("Identity", ["r2"], ["y"], name="Tail")]
+        yield f"O/{op}/reshape", _model(nodes, [_vi("in_0", F, [2, 3, 4])], [_vi("y", F, [2, 3, 4])], inits)
+
+
+def capture_family():
+    """an intermediate of a foldable pattern observed ONLY inside one branch of an If (then-only / else-only / both)"""
+    shape, p1, p2 = (2, 3, 4), (1, 2, 0), (2, 0, 1)
+    tshape = tuple(shape[i] for i in p1)
+    pats = {
+        "transpose_pair": ([H.make_node("Transpose", ["in_0"], ["m"], perm=list(p1), name="A"), H.make_node("Relu", ["m"], ["c"], name="B"),
+                            H.make_node("Transpose", ["c"], ["z"], perm=list(p2), name="C")], tshape, shape, []),
+        "reshape_pair": ([H.make_node("Reshape", ["in_0", "s1"], ["m"], name="A"), H.make_node("Relu", ["m"], ["c"], name="B"),
+                          H.make_node("Reshape", ["c", "s2"], ["z"], name="C")], (4, 6), shape,
+                         [_const("s1", np.array([4, 6], np.int64)), _const("s2", np.array([2, 3, 4], np.int64))]),
+        "cast_pair": ([H.make_node("Cast", ["in_0"], ["m"], to=TP.DOUBLE, name="A"), H.make_node("Cast", ["m"], ["z"], to=F, name="C")],
+                      shape, shape, []),
+    }
+    for pname, (nodes, mshape, zshape, inits) in pats.items():
+        mdt = TP.DOUBLE if pname == "cast_pair" else F
+        for where in ("then_only", "else_only", "both"):
+            other = _const("k", np.zeros(mshape, np.float64 if mdt == TP.DOUBLE else np.float32))
+            def br(tag, use):
+                src = "m" if use else "k"
+                return H.make_graph([H.make_node("Identity", [src], [f"b{tag}"])], f"g{tag}", [], [_vi(f"b{tag}", mdt, list(mshape))])
+            then_g = br("t", where in ("then_only", "both"))
+            else_g = br("e", where in ("else_only", "both"))
+            ifn = H.make_node("If", ["in_1"], ["w"], then_branch=then_g, else_branch=else_g, name="If")
+            yield (f"K/{pname}/captured_{where}", _model(list(nodes) + [ifn], [_vi("in_0", F, list(shape)), _vi("in_1", TP.BOOL, [])],
+                                                          [_vi("z", F, list(zshape)), _vi("w", mdt, list(mshape))], list(inits) + [other]))
+
+
+def multi_family():
+    """two instances of a rewrite pattern in ONE graph sharing a constant (axes / shape tensors / side operand)"""
+    # two Transpose-ReduceMean-Transpose patterns with DIFFERENT perms sharing the axes initializer
+    for axes in ([1, 2], [1]):
+        inits = [_const("ax", np.array(axes, np.int64))]
+        nodes = [H.make_node("Transpose", ["in_0"], ["ta"], perm=[0, 2, 3, 1], name="TA1"),
+                 H.make_node("ReduceMean", ["ta", "ax"], ["ra"], keepdims=1, name="RA"),
+                 H.make_node("Transpose", ["ra"], ["ya"], perm=[0, 3, 1, 2], name="TA2"),
+                 H.make_node("Transpose", ["in_1"], ["tb"], perm=[0, 3, 1, 2], name="TB1"),
+                 H.make_node("ReduceMean", ["tb", "ax"], ["rb"], keepdims=1, name="RB"),
+                 H.make_node("Transpose", ["rb"], ["yb"], perm=[0, 2, 3, 1], name="TB2")]
+        sa = [2, 3, 4, 5]
+        ta = [sa[i] for i in (0, 2, 3, 1)]
+        for a in axes:
+            ta[a] = 1
+        ya = [ta[i] for i in (0, 3, 1, 2)]
+        sb = [2, 4, 5, 3]
+        tb = [sb[i] for i in (0, 3, 1, 2)]
+        for a in axes:
+            tb[a] = 1
+        yb = [tb[i] for i in (0, 2, 3, 1)]
+        yield (f"D/two_transpose_reducemean_shared_axes/{axes}",
+               _model(nodes, [_vi("in_0", F, sa), _vi("in_1", F, sb)], [_vi("ya", F, ya), _vi("yb", F, yb)], inits))
+    # same, unnamed reducers (name collisions of generated initializers)
+    inits = [_const("ax", np.array([1], np.int64))]
+    nodes = [H.make_node("Transpose", ["in_0"], ["ta"], perm=[0, 2, 3, 1]), H.make_node("ReduceMean", ["ta", "ax"], ["ra"], keepdims=1),
+             H.make_node("Transpose", ["ra"], ["ya"], perm=[0, 3, 1, 2]),
+             H.make_node("Transpose", ["in_1"], ["tb"], perm=[0, 3, 1, 2]), H.make_node("ReduceMean", ["tb", "ax"], ["rb"], keepdims=1),
+             H.make_node("Transpose", ["rb"], ["yb"], perm=[0, 2, 3, 1])]
+    yield ("D/two_transpose_reducemean_shared_axes/unnamed",
+           _model(nodes, [_vi("in_0", F, [2, 3, 4, 5]), _vi("in_1", F, [2, 4, 5, 3])], [_vi("ya", F, [2, 1, 4, 5]), _vi("yb", F, [2, 4, 1, 3])], inits))
+    # two reshape pairs sharing both shape tensors, second one must NOT fold (different source shape)
+    inits = [_const("s1", np.array([12], np.int64)), _const("s2", np.array([2, 6], np.int64))]
+    nodes = [H.make_node("Reshape", ["in_0", "s1"], ["a1"], name="A1"), H.make_node("Relu", ["a1"], ["a2"], name="A2"),
+             H.make_node("Reshape", ["a2", "s2"], ["ya"], name="A3"),
+             H.make_node("Reshape", ["in_1", "s1"], ["b1"], name="B1"), H.make_node("Relu", ["b1"], ["b2"], name="B2"),
+             H.make_node("Reshape", ["b2", "s2"], ["yb"], name="B3")]
+    yield ("D/two_reshape_pairs_shared_shapes",
+           _model(nodes, [_vi("in_0", F, [2, 6]), _vi("in_1", F, [3, 4])], [_vi("ya", F, [2, 6]), _vi("yb", F, [2, 6])], inits))
+    # two transpose chains sharing a non-scalar side operand
+    nodes = [H.make_node("Transpose", ["in_0"], ["ta"], perm=[1, 2, 0], name="TA1"), H.make_node("Add", ["ta", "in_2"], ["sa"], name="AA"),
+             H.make_node("Transpose", ["sa"], ["ya"], perm=[2, 0, 1], name="TA2"),
+             H.make_node("Transpose", ["in_1"], ["tb"], perm=[1, 2, 0], name="TB1"), H.make_node("Mul", ["tb", "in_2"], ["sb"], name="BB"),
+             H.make_node("Transpose", ["sb"], ["yb"], perm=[2, 0, 1], name="TB2")]
+    yield ("D/two_transpose_chains_shared_side_operand",
+           _model(nodes, [_vi("in_0", F, [2, 3, 4]), _vi("in_1", F, [2, 3, 4]), _vi("in_2", F, [3, 4, 2])],
+                  [_vi("ya", F, [2, 3, 4]), _vi("yb", F, [2, 3, 4])]))
+
+
 def all_graphs():
-    for fam in (misc_family, cast_family, reshape_family, transpose_family):
+    for fam in (misc_family, multi_family, capture_family, table_ops_family, cast_family, reshape_family, transpose_family):
         yield from fam()
